@@ -819,6 +819,9 @@ func (x *Exec) callSpecFunc(env *Env, sf *SpecFunc, e *SCall) Value {
 	ch.vars = nil
 	ch.lookup = nil
 	ch.idx = nil
+	if p := x.v.typesPkg(sf.PkgPath); p != nil {
+		ch.pkg = p
+	}
 	for i, p := range sf.Params {
 		a := x.compile(env, e.Args[i])
 		tv, ok := a.(TV)
